@@ -64,7 +64,7 @@ Section PV.
     - (* PRead *)
       destruct (assoc_cases s w w' E) as [[A A']|(k & a & l & m & m' & A & A')]; rewrite A in H; rewrite A' in H';
         [inversion H; inversion H'; subst; auto|].
-      destruct ((what =? 5) || (what =? 6) || (what =? 8)).
+      destruct (pv_linked what).
       + destruct l as [t|]; [|inversion H; inversion H'; subst; auto].
         destruct (assoc_cases t w w' E) as [[B B']|(k2 & a2 & l2 & m2 & m2' & B & B')]; rewrite B in H; rewrite B' in H';
           [inversion H; inversion H'; subst; auto|].
@@ -117,7 +117,7 @@ Section PV.
   (* ---------------------------------------------------------------------------------- what a read means *)
   Lemma pv_read_plain_lemma : forall w r s what k a l m,
     assoc_z s w = Some (k, a, l, m) ->
-    (what =? 5) || (what =? 6) || (what =? 8) = false -> (what =? 4) && (k =? 4) = false ->
+    pv_linked what = false -> (what =? 4) && (k =? 4) = false ->
     snd (S (w, r) (PRead s what)) = match pvf (what * 100 + k * 10) [a] with None => None | Some v => Some (v, 0) end.
   Proof.
     intros w r s what k a l m A N1 N2. unfold pvstep, use_memo. unfold pvobj in *. cbv beta iota. cbn [orb andb]. rewrite A. cbv beta iota. rewrite N1, N2.
@@ -126,7 +126,7 @@ Section PV.
 
   Lemma pv_read_linked_lemma : forall w r s what k a t m k2 a2 l2 m2,
     assoc_z s w = Some (k, a, Some t, m) -> assoc_z t w = Some (k2, a2, l2, m2) ->
-    (what =? 5) || (what =? 6) || (what =? 8) = true ->
+    pv_linked what = true ->
     snd (S (w, r) (PRead s what)) = match pvf (what * 100 + k * 10 + k2) [a; a2] with None => None | Some v => Some (v, 0) end.
   Proof.
     intros w r s what k a t m k2 a2 l2 m2 A B N. unfold pvstep, use_memo. unfold pvobj in *. cbv beta iota. cbn [orb andb]. rewrite A. cbv beta iota. rewrite N, B.
@@ -150,7 +150,7 @@ Section PV.
     - intros t N. rewrite assoc_pv_map. unfold pvobj in *.
       destruct (assoc_z t w) as [[[[k' a'] l'] m']|]; [|reflexivity].
       cbn [option_map]. replace (t =? s) with false by (symmetry; apply Z.eqb_neq; exact N).
-      destruct l' as [u|]; [|reflexivity]. destruct ((u =? s) && negb (false && (k' =? 5))); reflexivity.
+      destruct l' as [u|]; [|reflexivity]. destruct ((u =? s) && negb (false && pv_is_delta k')); reflexivity.
   Qed.
 End PV.
 
